@@ -10,6 +10,7 @@
 -/
 import SoundeventModel.Detection
 import Proofs.Lemmas.Detection
+import Proofs.C07
 namespace SE.Proofs.C08
 open SE SE.Metrics SE.Detection
 
@@ -219,6 +220,61 @@ theorem C08_matcher_contract_checked (n m : Nat) (ms : List MEntry) (h : matcher
     · rw [if_neg hboth] at hd; simpa using hd
   · intro hboth
     rw [if_pos hboth] at hd; simpa using hd
+
+
+/-- the matcher's contract is what C07 proves of `match_geometries`' own logic: for a valid
+    answer of the assignment solver on an `n × m` affinity matrix with entries in [0, 1] (C06),
+    the matches it yields satisfy `MatcherCover` -/
+theorem C08_contract_from_C07 (n m : Nat) (aff : SE.Matching.Mat) (assigned : List (Nat × Nat))
+    (out : List SE.Matching.Entry) (h : SE.Proofs.C07.ValidAssignment n m assigned)
+    (hout : SE.Matching.selectMatches n m aff assigned = .ok out)
+    (haff : ∀ i j, i < n → j < m → 0 ≤ aff i j ∧ aff i j ≤ 1) :
+    MatcherCover n m (out.map (fun e => (⟨e.src, e.tgt, e.aff⟩ : MEntry))) := by
+  obtain ⟨hs, ht, hne⟩ := SE.Proofs.C07.C07_cover n m aff assigned out h hout
+  have hpos := SE.Proofs.C07.C07_positive_pairs n m aff assigned out h hout
+  have hrep := SE.Proofs.C07.C07_reported_affinity n m aff assigned out h hout
+  have hzero := SE.Proofs.C07.C07_unpaired_zero n m aff assigned out h hout
+  refine ⟨?_, ?_, ?_⟩
+  · simpa [SE.Matching.srcs, List.filterMap_map, Function.comp_def] using hs
+  · simpa [SE.Matching.tgts, List.filterMap_map, Function.comp_def] using ht
+  · intro e' he'
+    obtain ⟨e, he, rfl⟩ := List.mem_map.mp he'
+    simp only
+    have hone : (e.src = none ∨ e.tgt = none) → e.aff = 0 := hzero e he
+    have hboth : ∀ i j, e.src = some i → e.tgt = some j → 0 < e.aff ∧ e.aff ≤ 1 := by
+      intro i j hi hj
+      have hi' : i < n := by
+        have : i ∈ SE.Matching.srcs out := List.mem_filterMap.mpr ⟨e, he, hi⟩
+        simpa using hs.mem_iff.mp this
+      have hj' : j < m := by
+        have : j ∈ SE.Matching.tgts out := List.mem_filterMap.mpr ⟨e, he, hj⟩
+        simpa using ht.mem_iff.mp this
+      rw [hrep e he i j hi hj]
+      exact ⟨(hpos e he i j hi hj).1, (haff i j hi' hj').2⟩
+    refine ⟨?_, ?_, ?_, ?_, ?_⟩
+    · rcases hne e he with h1 | h1
+      · exact Or.inl (Option.isSome_iff_ne_none.mpr h1)
+      · exact Or.inr (Option.isSome_iff_ne_none.mpr h1)
+    · cases hs' : e.src with
+      | none => rw [hone (Or.inl hs')]
+      | some i =>
+        cases ht' : e.tgt with
+        | none => rw [hone (Or.inr ht')]
+        | some j => exact le_of_lt (hboth i j hs' ht').1
+    · cases hs' : e.src with
+      | none => rw [hone (Or.inl hs')]; norm_num
+      | some i =>
+        cases ht' : e.tgt with
+        | none => rw [hone (Or.inr ht')]; norm_num
+        | some j => exact (hboth i j hs' ht').2
+    · rintro (h1 | h1)
+      · exact hone (Or.inl (Option.isNone_iff_eq_none.mp h1))
+      · exact hone (Or.inr (Option.isNone_iff_eq_none.mp h1))
+    · rintro ⟨h1, h2⟩
+      obtain ⟨i, hi⟩ := Option.isSome_iff_exists.mp h1
+      obtain ⟨j, hj⟩ := Option.isSome_iff_exists.mp h2
+      exact (hboth i j hi hj).1
+
 
 /-! ### the executable cover statement used as monitor -/
 
